@@ -1,0 +1,8 @@
+//go:build verif
+// +build verif
+
+package server
+
+import "github.com/richiefi/rrrouter/verifhook"
+
+func verifPointS(name string, s string) { verifhook.Point(name, s) }
